@@ -24,6 +24,8 @@ def run (t : List String) : String :=
   -- and the server's own certificate (from CA 0) are as before. Whatever TLS state the client kept, admission is decided
   -- by the configuration of the server it talks to now.
   | ["rotate", _] => if handshake 1 0 (.signedBy 0 "localhost") (.signedBy 0 "localhost") then "accept" else "refuse"
+  -- a server certified by CA 1 that pads its chain with CA 0's certificate is still certified by CA 1
+  | [c, "otherca+chain"] => if handshake 0 0 (ident c) (.signedBy 1 "localhost") then "accept" else "refuse"
   | [c, s] => if handshake 0 0 (ident c) (ident s) then "accept" else "refuse"
   | _ => "bad-op"
 
